@@ -10,6 +10,7 @@ import (
 	"bytes"
 	"fmt"
 	"strings"
+	"sync"
 	"testing"
 	"unicode/utf8"
 
@@ -37,6 +38,72 @@ type c17bEvent struct {
 type c17bCase struct {
 	Events  []c17bEvent `json:"events"`
 	Mapping bool        `json:"mapping"` // translator maps ns-local -> ns-remote
+	// Host: where the blob sits: "<method>|<request|response>|<path to the event-blob field>"; "" = the repeated field
+	// GetWorkflowExecutionRawHistoryV2Response.history_batches
+	Host string `json:"host,omitempty"`
+}
+
+type c17bHost struct {
+	key  string
+	side string
+	path vfshared.Path
+}
+
+var c17bHostsOnce sync.Once
+var c17bHostList []c17bHost
+
+// c17bHosts: every event-blob field (singular and repeated) of every request/response type, with a path from each root.
+func c17bHosts() []c17bHost {
+	c17bHostsOnce.Do(func() {
+		isBlob := func(fd protoreflect.FieldDescriptor) bool { return vfshared.EventBlobFields[string(fd.FullName())] }
+		for _, m := range vfshared.Methods() {
+			for _, side := range []string{"request", "response"} {
+				d := m.In
+				if side == "response" {
+					d = m.Out
+				}
+				for _, p := range vfshared.EnumPaths(d, isBlob, vfshared.EnumOptions{MaxRepeat: 1, StopAtLeaf: true}) {
+					c17bHostList = append(c17bHostList, c17bHost{key: m.FullMethod + "|" + side + "|" + p.String(), side: side, path: p})
+				}
+			}
+		}
+	})
+	return c17bHostList
+}
+
+// c17bCollectBlobs returns the event blobs of m in walk order.
+func c17bCollectBlobs(m protoreflect.Message, out *[]*commonpb.DataBlob) {
+	m.Range(func(fd protoreflect.FieldDescriptor, v protoreflect.Value) bool {
+		if fd.IsMap() {
+			if fd.MapValue().Message() != nil {
+				v.Map().Range(func(_ protoreflect.MapKey, mv protoreflect.Value) bool { c17bCollectBlobs(mv.Message(), out); return true })
+			}
+			return true
+		}
+		if fd.Message() == nil {
+			return true
+		}
+		if fd.Message().FullName() == "temporal.api.common.v1.DataBlob" {
+			if vfshared.EventBlobFields[string(fd.FullName())] {
+				if fd.IsList() {
+					for i := 0; i < v.List().Len(); i++ {
+						*out = append(*out, v.List().Get(i).Message().Interface().(*commonpb.DataBlob))
+					}
+				} else {
+					*out = append(*out, v.Message().Interface().(*commonpb.DataBlob))
+				}
+			}
+			return true
+		}
+		if fd.IsList() {
+			for i := 0; i < v.List().Len(); i++ {
+				c17bCollectBlobs(v.List().Get(i).Message(), out)
+			}
+		} else {
+			c17bCollectBlobs(v.Message(), out)
+		}
+		return true
+	})
 }
 
 func c17bHex(s string) string { return fmt.Sprintf("%x", s) }
@@ -158,14 +225,47 @@ func c17bRun(c c17bCase) (repaired bool, err error) {
 			otherInvalid = true
 		}
 	}
-	msg := &adminservice.GetWorkflowExecutionRawHistoryV2Response{HistoryBatches: []*commonpb.DataBlob{{EncodingType: enumspb.ENCODING_TYPE_PROTO3, Data: append([]byte{}, wire...)}}}
 	reqMap := map[string]string{}
 	if c.Mapping {
 		reqMap["ns-local"] = "ns-remote"
 	}
-	tr := NewNamespaceNameTranslator(vfNoopLogger(), vfInvert(reqMap), reqMap)
-	_, terr := tr.TranslateResponse(msg)
-	gotBlob := msg.HistoryBatches[0]
+	var terr error
+	var gotBlob *commonpb.DataBlob
+	if c.Host == "" {
+		msg := &adminservice.GetWorkflowExecutionRawHistoryV2Response{HistoryBatches: []*commonpb.DataBlob{{EncodingType: enumspb.ENCODING_TYPE_PROTO3, Data: append([]byte{}, wire...)}}}
+		tr := NewNamespaceNameTranslator(vfNoopLogger(), vfInvert(reqMap), reqMap)
+		_, terr = tr.TranslateResponse(msg)
+		gotBlob = msg.HistoryBatches[0]
+	} else {
+		var host *c17bHost
+		for i, h := range c17bHosts() {
+			if h.key == c.Host {
+				host = &c17bHosts()[i]
+			}
+		}
+		if host == nil {
+			return false, fmt.Errorf("HARNESS: host %q no longer exists", c.Host)
+		}
+		msg := vfshared.BuildAtPath(host.path, func(parent protoreflect.Message, fd protoreflect.FieldDescriptor) {
+			b := &commonpb.DataBlob{EncodingType: enumspb.ENCODING_TYPE_PROTO3, Data: append([]byte{}, wire...)}
+			if fd.IsList() {
+				parent.Mutable(fd).List().Append(protoreflect.ValueOfMessage(b.ProtoReflect()))
+			} else {
+				parent.Set(fd, protoreflect.ValueOfMessage(b.ProtoReflect()))
+			}
+		}, nil)
+		if host.side == "request" {
+			_, terr = NewNamespaceNameTranslator(vfNoopLogger(), reqMap, vfInvert(reqMap)).TranslateRequest(msg)
+		} else {
+			_, terr = NewNamespaceNameTranslator(vfNoopLogger(), vfInvert(reqMap), reqMap).TranslateResponse(msg)
+		}
+		var blobs []*commonpb.DataBlob
+		c17bCollectBlobs(msg.ProtoReflect(), &blobs)
+		if len(blobs) != 1 {
+			return false, fmt.Errorf("HARNESS: host %q holds %d event blobs after translation", c.Host, len(blobs))
+		}
+		gotBlob = blobs[0]
+	}
 	// reference: the sanitised events, decoded in the current schema, then translated
 	wantEvents, derr := vfshared.DecodeEvents(&commonpb.DataBlob{EncodingType: enumspb.ENCODING_TYPE_PROTO3, Data: clean})
 	if otherInvalid || (derr != nil) {
@@ -217,7 +317,7 @@ func TestVF_C17_Blob(t *testing.T) {
 	if rp := vfshared.ReplayPart(); rp != "" && rp != part {
 		t.Skip()
 	}
-	st := vfshared.NewStats("C17", part, "history-event blobs in the legacy schema (1-4 events of 5 kinds, failure chains of depth 0-12, invalid byte runs at the start/middle/end of failure messages, optionally invalid UTF-8 in stack_trace, namespaces that the translator maps) inside GetWorkflowExecutionRawHistoryV2Response.history_batches, through the real namespace translator; oracle: repaired+translated events equal the sanitised copy translated by the reference (>=1 U+FFFD per run); unrepairable blobs give an error and stay byte-identical; non-trivial = repaired blob with >=2 events or a mapped namespace")
+	st := vfshared.NewStats("C17", part, "history-event blobs in the legacy schema (1-4 events of 5 kinds, failure chains of depth 0-12, invalid byte runs at the start/middle/end of failure messages, optionally invalid UTF-8 in stack_trace, namespaces that the translator maps) inside GetWorkflowExecutionRawHistoryV2Response.history_batches or (3 of 4 cases) inside any event-blob field - singular or repeated - of any request/response type of both services (replication-stream task attributes, ReapplyEvents, ImportWorkflowExecution, raw history ...), through the real namespace translator; oracle: repaired+translated events equal the sanitised copy translated by the reference (>=1 U+FFFD per run); unrepairable blobs give an error and stay byte-identical; non-trivial = repaired blob with >=2 events or a mapped namespace")
 	defer st.Flush()
 	run := func(tt interface{ Fatalf(string, ...any) }, c c17bCase) {
 		rep, err := c17bRun(c)
@@ -233,6 +333,13 @@ func TestVF_C17_Blob(t *testing.T) {
 		cl := []string{}
 		if rep {
 			cl = append(cl, "repaired")
+			if c.Host != "" {
+				if strings.HasSuffix(c.Host, "[]") {
+					cl = append(cl, "repaired_in_a_repeated_blob_field_of_some_rpc")
+				} else {
+					cl = append(cl, "repaired_in_a_singular_blob_field_of_some_rpc")
+				}
+			}
 		}
 		st.Case(vfshared.Fingerprint(c), nt, cl...)
 		if nt && st.WantSample() {
@@ -251,6 +358,9 @@ func TestVF_C17_Blob(t *testing.T) {
 	rapid.Check(t, func(rt *rapid.T) {
 		var c c17bCase
 		c.Mapping = rapid.Bool().Draw(rt, "mapping")
+		if hs := c17bHosts(); rapid.IntRange(0, 3).Draw(rt, "hosted") > 0 {
+			c.Host = hs[rapid.IntRange(0, len(hs)-1).Draw(rt, "host")].key
+		}
 		n := rapid.IntRange(1, 4).Draw(rt, "nevents")
 		for i := 0; i < n; i++ {
 			e := c17bEvent{Kind: rapid.SampledFrom([]string{"started", "wfFailed", "actFailed", "childFailed", "timer"}).Draw(rt, "kind"),
